@@ -246,60 +246,86 @@ End Scalar.
 Definition Utf8Total (rt : Runtime) : Prop := forall b, utf8_decode rt b <> Unmodelled.
 
 Section Bridged.
-Variable enc : val -> nat.
-Variable dec : nat -> option val.
+Variable C : coding.
 Variable kind_of : nat -> option leafkind.
 Variable rts : nat -> Runtime.
 Variable ev : tok -> res val.
 Variable rt0 : Runtime.
 Variable base : Core.runtime.
-Hypothesis CL : coding_law enc dec.
+Hypothesis CL : coding_law C.
 
-Notation brt := (bridged enc dec kind_of rts ev rt0 base).
-Notation cdec := (cdec enc dec).
-Notation lv := (lv enc dec kind_of rts ev).
+Notation brt := (bridged C kind_of rts ev rt0 base).
+Notation cdec := (cdec C).
+Notation encp := (encp C).
+Notation decp := (decp C).
+Notation lv := (lv C kind_of rts ev).
 
-Lemma cdec_enc v : cdec (enc v) = Some v.
-Proof. unfold LeafBridge.cdec. rewrite (CL v), Nat.eqb_refl. reflexivity. Qed.
-Lemma cdec_inv a x : cdec a = Some x -> a = enc x.
+Lemma cdec_enc v : cdec (enc C v) = Some v.
+Proof. unfold LeafBridge.cdec. rewrite (proj1 CL v), Nat.eqb_refl. reflexivity. Qed.
+Lemma cdec_inv a x : cdec a = Some x -> a = enc C x.
 Proof.
-  unfold LeafBridge.cdec. destruct (dec a) as [y|]; [|discriminate].
-  destruct (Nat.eqb (enc y) a) eqn:E; [|discriminate]. intros H. inv H. symmetry. apply Nat.eqb_eq. exact E.
+  unfold LeafBridge.cdec. destruct (dec C a) as [y|]; [|discriminate].
+  destruct (Nat.eqb (enc C y) a) eqn:E; [|discriminate]. intros H. inv H. symmetry. apply Nat.eqb_eq. exact E.
 Qed.
+
+(* the two laws of the coding at the level of core values *)
+Lemma decp_encp x : decp (encp x) = Some x.
+Proof.
+  destruct CL as (_ & K1 & K2). unfold LeafBridge.encp.
+  assert (G : forall y, (forall s, y <> VText CStr s) -> decp (Core.PAtom (enc C y)) = Some y).
+  { intros y Hy. cbn [LeafBridge.decp]. rewrite cdec_enc. destruct y; try reflexivity. destruct c; try reflexivity.
+    destruct (Hy s eq_refl). }
+  destruct x; try (apply G; intros; discriminate). destruct c; try (apply G; intros; discriminate).
+  destruct (key_of C s) as [f|] eqn:Ek.
+  - cbn [LeafBridge.decp]. rewrite (K2 s f Ek). reflexivity.
+  - cbn [LeafBridge.decp]. rewrite cdec_enc, Ek. reflexivity.
+Qed.
+Lemma decp_inv p x : decp p = Some x -> p = encp x.
+Proof.
+  destruct CL as (_ & K1 & K2). unfold LeafBridge.decp, LeafBridge.encp.
+  destruct p as [a|f| | | |]; try discriminate.
+  - destruct (cdec a) as [y|] eqn:Ea; [|discriminate]. pose proof (cdec_inv a y Ea) as ->.
+    destruct y; try (intros H; inv H; reflexivity). destruct c; try (intros H; inv H; reflexivity).
+    destruct (key_of C s) eqn:Ek; [discriminate|]. intros H. inv H. rewrite Ek. reflexivity.
+  - destruct (key_text C f) as [s|] eqn:Et; [|discriminate]. intros H. inv H. rewrite (K1 f s Et). reflexivity.
+Qed.
+Lemma encp_inj x y : encp x = encp y -> x = y.
+Proof. intros H. pose proof (decp_encp x) as Hx. rewrite H, decp_encp in Hx. inv Hx. reflexivity. Qed.
+Lemma encp_shape x : (exists a, encp x = Core.PAtom a) \/ (exists f, encp x = Core.PKey f).
+Proof.
+  unfold LeafBridge.encp. destruct x; eauto. destruct c; eauto. destruct (key_of C s); eauto.
+Qed.
+Lemma encp_none : encp VNone = b_none C.
+Proof. reflexivity. Qed.
 
 Lemma atom_eqb_eq (v : Core.pv) a : Core.pv_eqb v (Core.PAtom a) = true -> v = Core.PAtom a.
 Proof. destruct v; cbn; intros H; try discriminate. apply Nat.eqb_eq in H. subst. reflexivity. Qed.
 
 (* inversion of a leaf call that returned *)
-Lemma run_leaf_ok f p w : run_leaf enc dec f p = Core.Ok w ->
-  exists a x y, p = Core.PAtom a /\ cdec a = Some x /\ f x = Ok y /\ w = Core.PAtom (enc y).
+Lemma run_leaf_ok f p w : run_leaf C f p = Core.Ok w ->
+  exists x y, decp p = Some x /\ f x = Ok y /\ w = encp y.
 Proof.
-  unfold run_leaf. destruct p as [a| | | | |]; try discriminate.
-  destruct (cdec a) as [x|] eqn:Ea; [|discriminate]. unfold lift. destruct (f x) as [y|e|] eqn:Ef; try discriminate.
-  intros H. inv H. exists a, x, y. repeat split; assumption.
+  unfold run_leaf. destruct (decp p) as [x|] eqn:Ea; [|discriminate]. unfold lift. destruct (f x) as [y|e|] eqn:Ef; try discriminate.
+  intros H. inv H. exists x, y. repeat split; assumption.
 Qed.
-Lemma run_leaf_enc f x : run_leaf enc dec f (Core.PAtom (enc x)) = lift enc (f x).
-Proof. unfold run_leaf. rewrite cdec_enc. reflexivity. Qed.
+Lemma run_leaf_enc f x : run_leaf C f (encp x) = lift C (f x).
+Proof. unfold run_leaf. rewrite decp_encp. reflexivity. Qed.
 
-Lemma on_atom_inv f p : on_atom enc dec f p = true -> exists a x, p = Core.PAtom a /\ cdec a = Some x /\ f x = true.
-Proof.
-  unfold on_atom. destruct p as [a| | | | |]; try discriminate. destruct (cdec a) as [x|] eqn:E; [|discriminate].
-  intros H. exists a, x. repeat split; assumption.
-Qed.
+Lemma on_scalar_inv f p : on_scalar C f p = true -> exists x, decp p = Some x /\ f x = true.
+Proof. unfold on_scalar. destruct (decp p) as [x|] eqn:E; [|discriminate]. intros H. exists x. split; [reflexivity|assumption]. Qed.
 
 (* ---- NoneLaws ---- *)
 Lemma b_none_pass : Core.none_u brt (Core.none brt) = Core.Ok (Core.none brt).
-Proof. cbn [Core.none_u Core.none bridged]. unfold b_none_u, b_none. rewrite cdec_enc. reflexivity. Qed.
+Proof. cbn [Core.none_u Core.none bridged]. unfold b_none_u. rewrite <- encp_none, decp_encp. reflexivity. Qed.
 
 Lemma bridged_none_laws : Utf8Total rt0 -> (forall e, Core.suppressed base (exn_map e) = true) ->
   CoreValid.NoneLaws brt.
 Proof.
   intros Ht Hsup. split; [exact b_none_pass|].
   intros v Hv. cbn [Core.none_u Core.none Core.suppressed bridged] in *. unfold b_none_u.
-  destruct v as [a| | | | |]; try (exists Core.EValue; split; [reflexivity|exact (Hsup EValue)]).
-  destruct (cdec a) as [x|] eqn:Ea; [|exists Core.EValue; split; [reflexivity|exact (Hsup EValue)]].
+  destruct (decp v) as [x|] eqn:Ea; [|exists Core.EValue; split; [reflexivity|exact (Hsup EValue)]].
   assert (Hx : x <> VNone).
-  { intros ->. apply cdec_inv in Ea. subst a. unfold b_none in Hv. cbn [Core.pv_eqb] in Hv.
+  { intros ->. apply decp_inv in Ea. subst v. rewrite encp_none in Hv. unfold b_none in Hv. cbn [Core.pv_eqb] in Hv.
     rewrite Nat.eqb_refl in Hv. discriminate. }
   destruct (unm_none_rejects rt0 x Hx Ht) as [e He]. rewrite He. exists (exn_map e). split; [reflexivity|apply Hsup].
 Qed.
@@ -310,10 +336,10 @@ Lemma bridged_leaf_round : (forall s, RuntimeLaws (rts s)) -> (forall s, FoldLaw
 Proof.
   intros HL HF s v w Hv Hm. cbn [Core.leaf_m Core.leaf_u bridged] in *. unfold LeafBridge.lv in Hv.
   unfold b_leaf_m in Hm. unfold b_leaf_u. destruct (kind_of s) as [k|]; [|discriminate].
-  destruct (on_atom_inv _ _ Hv) as (a & x & -> & Ea & Hin).
-  destruct (run_leaf_ok _ _ _ Hm) as (a' & x' & y & Hp & Ea' & Hf & ->). inv Hp. rewrite Ea in Ea'. inv Ea'.
+  destruct (on_scalar_inv _ _ Hv) as (x & Ea & Hin).
+  destruct (run_leaf_ok _ _ _ Hm) as (x' & y & Ea' & Hf & ->). rewrite Ea in Ea'. inv Ea'.
   rewrite run_leaf_enc. rewrite (round_exact (rts s) ev (HL s) k x' y (HF s) Hin Hf). cbn [lift].
-  rewrite (cdec_inv _ _ Ea). reflexivity.
+  rewrite (decp_inv _ _ Ea). reflexivity.
 Qed.
 
 Lemma bridged_none_round v : Core.is_none_val brt v = true -> Core.none_u brt v = Core.Ok v.
@@ -329,15 +355,15 @@ Proof. intros HL HF. split; [exact (bridged_leaf_round HL HF)|exact bridged_none
 (* ---- the round trip up to the fold, on the whole range, from RuntimeLaws alone ---- *)
 Lemma bridged_leaf_round_sim : (forall s, RuntimeLaws (rts s)) ->
   forall s v w, lv false s v = true -> Core.leaf_m brt s v = Core.Ok w ->
-  exists v', Core.leaf_u brt s w = Core.Ok v' /\ sim_pv enc dec v v'.
+  exists v', Core.leaf_u brt s w = Core.Ok v' /\ sim_pv C v v'.
 Proof.
   intros HL s v w Hv Hm. cbn [Core.leaf_m Core.leaf_u bridged] in *. unfold LeafBridge.lv in Hv.
   unfold b_leaf_m in Hm. unfold b_leaf_u. destruct (kind_of s) as [k|]; [|discriminate].
-  destruct (on_atom_inv _ _ Hv) as (a & x & -> & Ea & Hin).
-  destruct (run_leaf_ok _ _ _ Hm) as (a' & x' & y & Hp & Ea' & Hf & ->). inv Hp. rewrite Ea in Ea'. inv Ea'.
+  destruct (on_scalar_inv _ _ Hv) as (x & Ea & Hin).
+  destruct (run_leaf_ok _ _ _ Hm) as (x' & y & Ea' & Hf & ->). rewrite Ea in Ea'. inv Ea'.
   destruct (round_sim (rts s) ev (HL s) k x' y Hin Hf) as (x'' & Hu & Hsim).
-  exists (Core.PAtom (enc x'')). rewrite run_leaf_enc, Hu. split; [reflexivity|].
-  cbn [sim_pv]. exists x', x''. repeat split; [exact Ea|apply cdec_enc|exact Hsim].
+  exists (encp x''). rewrite run_leaf_enc, Hu. split; [reflexivity|].
+  exists x', x''. repeat split; [exact Ea|apply decp_encp|exact Hsim].
 Qed.
 
 (* ---- PassLaws / IdemLaws (C13) ---- *)
@@ -346,10 +372,10 @@ Lemma bridged_lv_pass strict : (forall s, LoadLaws (rts s)) ->
 Proof.
   intros HLd s v Hv. cbn [Core.leaf_u bridged]. unfold LeafBridge.lv in Hv. unfold b_leaf_u.
   destruct (kind_of s) as [k|]; [|discriminate].
-  destruct (on_atom_inv _ _ Hv) as (a & x & -> & Ea & Hin).
+  destruct (on_scalar_inv _ _ Hv) as (x & Ea & Hin).
   unfold in_kind in Hin. apply andb_true_iff in Hin as [Hs _].
   unfold run_leaf. rewrite Ea. rewrite (unm_pass (rts s) k x Hs (fun _ => HLd s)). cbn [lift].
-  rewrite (cdec_inv _ _ Ea). reflexivity.
+  rewrite (decp_inv _ _ Ea). reflexivity.
 Qed.
 
 Lemma bridged_leaf_idem : (forall s, LoadLaws (rts s)) ->
@@ -357,7 +383,7 @@ Lemma bridged_leaf_idem : (forall s, LoadLaws (rts s)) ->
 Proof.
   intros HLd s x y H. cbn [Core.leaf_u bridged] in *. unfold b_leaf_u in *.
   destruct (kind_of s) as [k|]; [|discriminate].
-  destruct (run_leaf_ok _ _ _ H) as (a & x0 & y0 & -> & Ea & Hf & ->).
+  destruct (run_leaf_ok _ _ _ H) as (x0 & y0 & Ea & Hf & ->).
   rewrite run_leaf_enc. rewrite (unm_pass (rts s) k y0 (unm_shape (rts s) k x0 y0 Hf) (fun _ => HLd s)). reflexivity.
 Qed.
 
@@ -369,37 +395,53 @@ Lemma bridged_idem_laws : Utf8Total rt0 -> (forall e, Core.suppressed base (exn_
 Proof. intros Ht Hs HLd. split; [exact (bridged_none_laws Ht Hs)|exact (bridged_leaf_idem HLd)]. Qed.
 
 (* ---- LeafLaws (C03): no interpreter law at all ---- *)
-Lemma bridged_leaf_laws : CoreC03.LeafLaws brt (leaf_class_ok enc dec kind_of).
+Lemma bridged_leaf_laws : CoreC03.LeafLaws brt (leaf_class_ok C kind_of).
 Proof.
   split.
   - intros s x v H. cbn [Core.leaf_u bridged] in H. unfold b_leaf_u in H. unfold leaf_class_ok.
     destruct (kind_of s) as [k|]; [|discriminate].
-    destruct (run_leaf_ok _ _ _ H) as (a & x0 & y0 & -> & Ea & Hf & ->).
-    unfold on_atom. rewrite cdec_enc. exact (unm_shape (rts s) k x0 y0 Hf).
-  - intros x v H. cbn [Core.none_u Core.none bridged] in *. unfold b_none_u in H. unfold b_none.
-    destruct x as [a| | | | |]; try discriminate. destruct (cdec a) as [x0|]; [|discriminate].
+    destruct (run_leaf_ok _ _ _ H) as (x0 & y0 & Ea & Hf & ->).
+    unfold on_scalar. rewrite decp_encp. exact (unm_shape (rts s) k x0 y0 Hf).
+  - intros x v H. cbn [Core.none_u Core.none bridged] in *. unfold b_none_u in H.
+    destruct (decp x) as [x0|]; [|discriminate].
     unfold lift in H. destruct (unm_none rt0 x0) as [y| |] eqn:E; try discriminate. inv H.
     rewrite (unm_none_ok rt0 x0 y E). reflexivity.
 Qed.
 
 (* ---- MarshalLaws (C06): no interpreter law at all ---- *)
+Lemma is_wire_encp w : prim_val w = true -> CoreC06.is_wire (prim_atom C) (encp w) = true.
+Proof.
+  intros Hw. pose proof (decp_encp w) as Hd. destruct (encp_shape w) as [[a E]|[f E]]; rewrite E in *; [|reflexivity].
+  cbn [CoreC06.is_wire]. unfold prim_atom, on_scalar. rewrite Hd. exact Hw.
+Qed.
+
 Lemma bridged_marshal_laws strict :
-  CoreC06.MarshalLaws brt (prim_atom enc dec) (robust_leaf kind_of) (robust_leaf kind_of) (lv strict) no_literal no_member.
+  CoreC06.MarshalLaws brt (prim_atom C) (robust_leaf kind_of) (robust_leaf kind_of) (lv strict) no_literal no_member.
 Proof.
   assert (R : forall s x w, robust_leaf kind_of s = true -> Core.leaf_m brt s x = Core.Ok w ->
-                            CoreC06.is_wire (prim_atom enc dec) w = true).
+                            CoreC06.is_wire (prim_atom C) w = true).
   { intros s x w Hr H. cbn [Core.leaf_m bridged] in H. unfold b_leaf_m in H. unfold robust_leaf in Hr.
     destruct (kind_of s) as [k|]; [|discriminate].
-    destruct (run_leaf_ok _ _ _ H) as (a & x0 & y0 & -> & Ea & Hf & ->).
-    cbn [CoreC06.is_wire]. unfold prim_atom. rewrite cdec_enc. exact (mar_prim (rts s) ev k x0 y0 Hr Hf). }
+    destruct (run_leaf_ok _ _ _ H) as (x0 & y0 & Ea & Hf & ->).
+    apply is_wire_encp. exact (mar_prim (rts s) ev k x0 y0 Hr Hf). }
   split.
-  - exists (enc VNone). split; [reflexivity|]. unfold prim_atom. rewrite cdec_enc. reflexivity.
+  - exists (enc C VNone). split; [reflexivity|]. unfold prim_atom, on_scalar. change (Core.PAtom (enc C VNone)) with (encp VNone).
+    rewrite decp_encp. reflexivity.
   - exact R.
   - intros s x w Hr _ H. exact (R s x w Hr H).
   - intros s x H. discriminate H.
 Qed.
 
 (* ---- marshalling a leaf is injective (C01_keys_of_leaf_law), when == between distinct atoms is never claimed ---- *)
+Lemma pyeq_encp y1 y2 : (forall a b, Core.atom_eq base a b = true -> a = b) ->
+  Core.pv_pyeq brt (encp y1) (encp y2) = true -> encp y1 = encp y2.
+Proof.
+  intros Hae. destruct (encp_shape y1) as [[a E1]|[f E1]]; destruct (encp_shape y2) as [[b E2]|[g E2]]; rewrite E1, E2;
+    cbn [Core.pv_pyeq Core.pv_eqb Core.atom_eq bridged]; intros H; try discriminate H.
+  - apply orb_true_iff in H as [H|H]; [apply Nat.eqb_eq in H; subst; reflexivity|rewrite (Hae _ _ H); reflexivity].
+  - apply Nat.eqb_eq in H. subst. reflexivity.
+Qed.
+
 Lemma bridged_leaf_m_inj : (forall s, RuntimeLaws (rts s)) -> (forall s, FoldLaws (rts s)) ->
   (forall a b, Core.atom_eq base a b = true -> a = b) -> CoreC01.leaf_m_inj brt (lv true).
 Proof.
@@ -407,12 +449,11 @@ Proof.
   pose proof (bridged_leaf_round HL HF s v1 w1 H1 M1) as U1.
   pose proof (bridged_leaf_round HL HF s v2 w2 H2 M2) as U2.
   cbn [Core.leaf_m bridged] in M1, M2. unfold b_leaf_m in M1, M2. destruct (kind_of s) as [k|]; [|discriminate].
-  destruct (run_leaf_ok _ _ _ M1) as (a1 & x1 & y1 & -> & _ & _ & ->).
-  destruct (run_leaf_ok _ _ _ M2) as (a2 & x2 & y2 & -> & _ & _ & ->).
-  cbn [Core.pv_pyeq Core.atom_eq bridged] in Heq |- *.
-  assert (E : enc y1 = enc y2).
-  { apply orb_true_iff in Heq as [Heq|Heq]; [apply Nat.eqb_eq; exact Heq|exact (Hae _ _ Heq)]. }
-  rewrite E in U1. rewrite U1 in U2. inv U2. rewrite Nat.eqb_refl. reflexivity.
+  destruct (run_leaf_ok _ _ _ M1) as (x1 & y1 & D1 & _ & ->).
+  destruct (run_leaf_ok _ _ _ M2) as (x2 & y2 & D2 & _ & ->).
+  rewrite (pyeq_encp y1 y2 Hae Heq) in U1. rewrite U1 in U2. inv U2.
+  rewrite (decp_inv _ _ D2). destruct (encp_shape x2) as [[a E]|[f E]]; rewrite E;
+    cbn [Core.pv_pyeq Core.pv_eqb]; rewrite Nat.eqb_refl; reflexivity.
 Qed.
 
 End Bridged.
@@ -468,10 +509,17 @@ Proof. induction l as [|n l IH]; [reflexivity|]. cbn [bits_of_tokens]. rewrite t
 Lemma bits_of_pos_of l : bits_of_pos (pos_of_bits l) = l.
 Proof. induction l as [|[|] l IH]; cbn [pos_of_bits bits_of_pos]; rewrite ?IH; reflexivity. Qed.
 
-Lemma std_coding_law : coding_law std_enc std_dec.
+Lemma std_dec_enc v : std_dec (std_enc v) = Some v.
+Proof. unfold std_dec, std_enc. rewrite Pos2Nat.id, bits_of_pos_of, tokens_of_bits_of. apply val_of_tokens_of. Qed.
+
+Lemma with_keys_law e d : (forall v, d (e v) = Some v) -> coding_law (with_keys e d).
 Proof.
-  intros v. unfold std_dec, std_enc. rewrite Pos2Nat.id, bits_of_pos_of, tokens_of_bits_of. apply val_of_tokens_of.
+  intros H. split; [exact H|]. split.
+  - intros [|f] s E; cbn in E; inv E. reflexivity.
+  - intros s f E. cbn in E. destruct (String.eqb s "kids") eqn:Es; inv E. apply String.eqb_eq in Es. subst. reflexivity.
 Qed.
+Lemma std_coding_law : coding_law std_coding.
+Proof. exact (with_keys_law std_enc std_dec std_dec_enc). Qed.
 
 (* ================================================================== D. the toy runtime satisfies the extra laws *)
 Lemma toy_load_laws : LoadLaws toy_rt.
@@ -555,25 +603,24 @@ Qed.
 
 (* ---- bridged level ---- *)
 Section Instance.
-Variable enc : val -> nat.
-Variable dec : nat -> option val.
-Hypothesis CL : coding_law enc dec.
+Variable e : val -> nat.
+Variable d : nat -> option val.
+Hypothesis DE : forall v, d (e v) = Some v.
 
-Lemma enc_inj x y : enc x = enc y -> x = y.
-Proof. intros H. pose proof (CL x) as Hx. rewrite H, (CL y) in Hx. inv Hx. reflexivity. Qed.
-
-Notation xrt := (bridged enc dec ex_kinds (fun _ => toy_rt) ex_ev toy_rt ex_base).
-Notation xlv := (lv enc dec ex_kinds (fun _ => toy_rt) ex_ev).
+Notation xC := (with_keys e d).
+Notation xrt := (bridged (with_keys e d) ex_kinds (fun _ => toy_rt) ex_ev toy_rt ex_base).
+Notation xlv := (lv (with_keys e d) ex_kinds (fun _ => toy_rt) ex_ev).
 Definition no_env : Core.env := fun _ => None.
+Let CLx : coding_law xC := with_keys_law e d DE.
 
-Lemma ex_lv_enc strict s x : xlv strict s (Core.PAtom (enc x)) =
+Lemma ex_lv_enc strict s x : xlv strict s (encp xC x) =
   match ex_kinds s with Some k => in_kind toy_rt ex_ev strict k x | None => false end.
-Proof. unfold lv, on_atom. rewrite (cdec_enc enc dec CL). reflexivity. Qed.
+Proof. unfold lv, on_scalar. rewrite (decp_encp xC CLx). reflexivity. Qed.
 
 Lemma ex_hyps :
-  CoreC01.valid xrt (xlv true) no_env 4 ex_T (ex_pv enc Core.KTuple ex_vals) = true /\
-  CoreC01.c01_guard xrt no_env 4 ex_T (ex_pv enc Core.KTuple ex_vals) = true /\
-  CoreC01.union_unamb xrt (xlv true) no_env 4 ex_T (ex_pv enc Core.KTuple ex_vals) = true.
+  CoreC01.valid xrt (xlv true) no_env 4 ex_T (ex_pv xC Core.KTuple ex_vals) = true /\
+  CoreC01.c01_guard xrt no_env 4 ex_T (ex_pv xC Core.KTuple ex_vals) = true /\
+  CoreC01.union_unamb xrt (xlv true) no_env 4 ex_T (ex_pv xC Core.KTuple ex_vals) = true.
 Proof.
   split; [|split; reflexivity].
   unfold ex_T, ex_pv, ex_vals.
@@ -581,37 +628,55 @@ Proof.
   rewrite !ex_lv_enc. vm_compute. reflexivity.
 Qed.
 
-Lemma ex_mar : Core.mar xrt no_env 4 ex_T (ex_pv enc Core.KTuple ex_vals) = Core.Ok (ex_pv enc Core.KList ex_wire).
+Lemma ex_mar : Core.mar xrt no_env 4 ex_T (ex_pv xC Core.KTuple ex_vals) = Core.Ok (ex_pv xC Core.KList ex_wire).
 Proof.
   unfold ex_T, ex_pv, ex_vals, ex_wire.
   cbn [Core.mar Core.itervalues Core.bind Core.mapM Core.zip_trunc map fst snd Core.leaf_m bridged].
-  unfold b_leaf_m. cbn [ex_kinds]. rewrite !(run_leaf_enc enc dec CL). vm_compute. reflexivity.
+  unfold b_leaf_m. cbn [ex_kinds]. rewrite !(run_leaf_enc xC CLx). vm_compute. reflexivity.
 Qed.
 
-Lemma ex_unm : Core.unm xrt no_env 4 ex_T (ex_pv enc Core.KList ex_wire) = Core.Ok (ex_pv enc Core.KTuple ex_vals).
+Lemma ex_unm : Core.unm xrt no_env 4 ex_T (ex_pv xC Core.KList ex_wire) = Core.Ok (ex_pv xC Core.KTuple ex_vals).
 Proof.
   unfold ex_T, ex_pv, ex_vals, ex_wire.
   cbn [Core.unm Core.load Core.is_scalar Core.itervalues Core.bind Core.mapM Core.zip_trunc map fst snd
        Core.leaf_u bridged Core.construct_seq List.length Nat.ltb Nat.leb].
-  unfold b_leaf_u. cbn [ex_kinds]. rewrite !(run_leaf_enc enc dec CL). vm_compute. reflexivity.
+  unfold b_leaf_u. cbn [ex_kinds]. rewrite !(run_leaf_enc xC CLx). vm_compute. reflexivity.
 Qed.
+
+(* the str "kids" is the field name 0: PKey 0 in the core model, never an atom *)
+Lemma ex_key : encp xC (VText CStr "kids") = Core.PKey 0 /\ encp xC (VText CStr "null") = Core.PAtom (e (VText CStr "null")).
+Proof. split; reflexivity. Qed.
 
 (* with the lax range (fold 1 allowed) exact equality fails: the wire form of a datetime does not carry the fold *)
 Lemma ex_fold_refutes :
-  xlv false 5 (Core.PAtom (enc (VDateTime ex_dt_fold1))) = true /\
-  Core.leaf_m xrt 5 (Core.PAtom (enc (VDateTime ex_dt_fold1)))
-    = Core.Ok (Core.PAtom (enc (VText CStr "2020-01-01T17:00:00.999999+05:30"))) /\
-  Core.leaf_u xrt 5 (Core.PAtom (enc (VText CStr "2020-01-01T17:00:00.999999+05:30")))
-    = Core.Ok (Core.PAtom (enc (VDateTime ex_dt))) /\
-  Core.PAtom (enc (VDateTime ex_dt)) <> Core.PAtom (enc (VDateTime ex_dt_fold1)).
+  xlv false 5 (encp xC (VDateTime ex_dt_fold1)) = true /\
+  Core.leaf_m xrt 5 (encp xC (VDateTime ex_dt_fold1))
+    = Core.Ok (encp xC (VText CStr "2020-01-01T17:00:00.999999+05:30")) /\
+  Core.leaf_u xrt 5 (encp xC (VText CStr "2020-01-01T17:00:00.999999+05:30"))
+    = Core.Ok (encp xC (VDateTime ex_dt)) /\
+  encp xC (VDateTime ex_dt) <> encp xC (VDateTime ex_dt_fold1).
 Proof.
   split; [rewrite ex_lv_enc; vm_compute; reflexivity|].
-  split; [cbn [Core.leaf_m bridged]; unfold b_leaf_m; cbn [ex_kinds]; rewrite (run_leaf_enc enc dec CL); vm_compute; reflexivity|].
-  split; [cbn [Core.leaf_u bridged]; unfold b_leaf_u; cbn [ex_kinds]; rewrite (run_leaf_enc enc dec CL); vm_compute; reflexivity|].
-  intros H. inv H. match goal with X : enc _ = enc _ |- _ => apply enc_inj in X; discriminate X end.
+  split; [cbn [Core.leaf_m bridged]; unfold b_leaf_m; cbn [ex_kinds]; rewrite (run_leaf_enc xC CLx); vm_compute; reflexivity|].
+  split; [cbn [Core.leaf_u bridged]; unfold b_leaf_u; cbn [ex_kinds]; rewrite (run_leaf_enc xC CLx); vm_compute; reflexivity|].
+  intros H. apply (encp_inj xC CLx) in H. discriminate H.
+Qed.
+
+Lemma ex_round_lax_fails : CoreC01.RoundLaws xrt (xlv false) -> False.
+Proof.
+  intros R. destruct ex_fold_refutes as (H1 & H2 & H3 & H4).
+  pose proof (CoreC01.leaf_round _ _ R 5 _ _ H1 H2) as H5. rewrite H3 in H5. apply H4. congruence.
 Qed.
 
 End Instance.
+
+Lemma refute_round_full : ~ round_full_stmt.
+Proof.
+  intros F.
+  exact (ex_round_lax_fails std_enc std_dec std_dec_enc
+           (F std_coding ex_kinds (fun _ => toy_rt) ex_ev toy_rt ex_base std_coding_law
+              (fun _ => toy_laws) (fun _ => toy_fold_laws))).
+Qed.
 
 Lemma ex_base_suppresses : forall e, Core.suppressed ex_base (exn_map e) = true.
 Proof. intros e. reflexivity. Qed.
